@@ -22,7 +22,7 @@ ASSUMPTIONS = [
     "the theorems are about the Gallina model FitsModel.v (L1: write_fits_core/read_fits_core logic, L2: the FITS subset); cfitsio and the C++ are tied to it differentially on every run, not verified",
     "data words are raw bit patterns: bit-for-bit equality of coefficients/knots/extents is a statement about N; cfitsio copies IEEE words unchanged for BITPIX -32/-64 with no BSCALE/BZERO (observed, not proved)",
     "integer arithmetic unbounded in the model (no uint64 wrap of the coefficient count; no-overflow is a stated hypothesis)",
-    "the tie covers auxiliary values without the quote character (since C16's fix the library's reader un-doubles quotes, the model's reader returns them doubled: the theorems hold for the model there, the correspondence is not exercised); auxiliary keys not colliding with keywords cfitsio itself interprets (EXTNAME, HDUNAME, END, HISTORY, CONTINUE, BSCALE, BZERO, BLANK, ...)",
+    "the tie covers auxiliary values without the quote character (since C16's fix the library's reader un-doubles quotes, the model's reader returns them doubled: the theorems hold for the model there, the correspondence is not exercised); auxiliary keys not colliding with keywords cfitsio itself interprets (BSCALE, BZERO, BLANK, XTENSION, ...); the names fits_movnam_hdu compares (EXTNAME, HDUNAME) ARE offered to write_key: the model (FitsModel.reserved over the list translated from reservedFitsKeyword) predicts the refusal and the reader skipping such a card in a foreign file",
     "wf_table' (hypothesis of C06_roundtrip) is a table-level predicate: limits of the C types and of the 80-column card in its standard 'HIERARCH key = value' form; operator== model (table_op_eq) is a hand transcription of splinetable.h 349-368, the real operator== is called on every round trip",
     "PERIODn header values are outside the property's list (%.15G formatting is not bit exact); carried as opaque text, compared only after parsing",
 ]
@@ -33,8 +33,13 @@ SPECIAL32 = [0x7fc00000, 0xffc00000, 0x7f800001, 0xff800001, 0x7fffffff, 0x7f800
              0x00000001, 0x80000001, 0x007fffff, 0x00800000, 0x7f7fffff, 0xff7fffff, 0x3f800000, 0x7fc12345]
 SPECIAL64 = [0x7ff8000000000000, 0x7ff0000000000000, 0xfff0000000000000, 0x8000000000000000, 0x0000000000000001,
              0x000fffffffffffff, 0x7fefffffffffffff, 0xffefffffffffffff]
-AVOID_KEYS = {"EXTNAME", "HDUNAME", "END", "HISTORY", "CONTINUE", "BSCALE", "BZERO", "BLANK", "XTENSION", "PCOUNT", "GCOUNT",
-              "HIERARCH", "CHECKSUM", "DATASUM", "EXTVER", "EXTLEVEL", "BUNIT", "DATAMAX", "DATAMIN", "GROUPS", "INHERIT", "ZIMAGE", "TFIELDS"}
+# the names fits_movnam_hdu compares when the reader looks for KNOTSn / EXTENTS (its search starts at the primary HDU): reserved since the
+# repair of C06:aux-key:EXTNAME-shadows-KNOTSn. The generator offers them to write_key; whether an offer is refused is asked of the model.
+NAME_KEYS = [b"EXTNAME", b"HDUNAME"]
+NAME_VALUES = [b"KNOTS0", b"KNOTS1", b"KNOTS2", b"EXTENTS", b"PRIMARY", b"knots0", b"KNOTS", b"", b"X"]
+NEAR_NAME_KEYS = [b"EXTNAMES", b"EXTNAM", b"HDUNAME2", b"HDUNAM", b"XEXTNAME", b"EXTVER", b"HDUVER", b"EXTLEVEL"]   # accepted: exact match only; versions are not compared (extver 0)
+AVOID_KEYS = {"END", "HISTORY", "CONTINUE", "BSCALE", "BZERO", "BLANK", "XTENSION", "PCOUNT", "GCOUNT",
+              "HIERARCH", "CHECKSUM", "DATASUM", "BUNIT", "DATAMAX", "DATAMIN", "GROUPS", "INHERIT", "ZIMAGE", "TFIELDS"}
 RESERVED = ["BITPIX", "SIMPLE", "TYPE", "ORDER", "NAXIS", "PERIOD", "EXTEND", "COMMENT"]
 
 def hx(b):
@@ -50,6 +55,9 @@ def cfitsio_double(v):
 class Case:
     def __init__(self, orders, knots, coefs, extents, periods, aux):
         self.orders, self.knots, self.coefs, self.extents, self.periods, self.aux = orders, knots, coefs, extents, periods, aux
+        # offers: every (key, value) handed to write_key, in order. aux: the ones the table then holds, refused: the others —
+        # Runner.split_offers asks the model (FitsModel.reserved) which is which; until then every offer counts as stored
+        self.offers, self.refused = list(aux), []
         self.ndim = len(orders)
         self.naxes = [len(k) - o - 1 for k, o in zip(knots, orders)]
         st = [1] * self.ndim
@@ -76,8 +84,9 @@ class Case:
             L.append("periods none" if self.periods is None else "periods " + " ".join(hexd(p) for p in self.periods))
         if for_input:
             L.append("periodtok none" if self.periods is None else "periodtok " + " ".join(hx(cfitsio_double(p).encode()) for p in self.periods))
-        L.append("naux %d" % len(self.aux))
-        for k, v in self.aux:
+        aux = self.offers if for_input == "offers" else self.aux
+        L.append("naux %d" % len(aux))
+        for k, v in aux:
             L.append("aux %s %s" % (hx(k), hx(pad8(v) if read_back else v)))
         L.append("end")
         return L
@@ -85,7 +94,7 @@ class Case:
         return {"orders": self.orders, "knots": [["%016x" % w for w in k] for k in self.knots], "coefs": ["%08x" % w for w in self.coefs],
                 "extents": None if self.extents is None else ["%016x" % w for w in self.extents],
                 "periods": None if self.periods is None else [hexd(p) for p in self.periods],
-                "aux": [[k.hex(), v.hex()] for k, v in self.aux]}
+                "aux": [[k.hex(), v.hex()] for k, v in self.offers]}
     @staticmethod
     def from_json(j):
         return Case(j["orders"], [[int(h, 16) for h in k] for k in j["knots"]], [int(h, 16) for h in j["coefs"]],
@@ -109,7 +118,7 @@ class Case:
     def describe(self):
         return {"ndim": self.ndim, "orders": self.orders, "naxes": self.naxes, "ncoef": len(self.coefs), "special_coefficients": self.has_special(), "evaluable": self.evaluable(),
                 "extents": "none" if self.extents is None else ("default" if self.extents == self.default_extents() else "custom"),
-                "periods": self.periods is not None, "naux": len(self.aux)}
+                "periods": self.periods is not None, "naux": len(self.aux), "refused_offers": [k.decode("latin1") for k, _ in self.refused]}
 
 def gen_aux(rng, n):
     aux, seen = [], set()
@@ -145,6 +154,17 @@ def gen_aux(rng, n):
             if style == "blanks":
                 v = b" " * rng.rint(0, 2) + v.strip(b" ")[: max(0, maxlen - 4)] + b" " * rng.rint(0, 2)
         aux.append((key, v[:maxlen]))
+    # offers of the HDU-name keywords (to be refused) and of their near misses (to be stored), anywhere in the sequence
+    if rng.chance(0.3):
+        for _ in range(rng.rint(1, 3)):
+            if rng.chance(0.7):
+                k = rng.choice(NAME_KEYS)
+            else:
+                k = rng.choice(NEAR_NAME_KEYS)
+                if k.decode() in seen:
+                    continue
+                seen.add(k.decode())
+            aux.insert(rng.rint(0, len(aux)), (k, rng.choice(NAME_VALUES)))
     return aux
 
 def gen_case(rng, tier, big=False):
@@ -203,6 +223,7 @@ def gen_case(rng, tier, big=False):
     if rng.chance(0.35):
         c.periods = [rng.choice([0.0, 0.0, 1.0, 6.283185307179586, 360.0, 0.1, 1e-7, 123456789.125]) for _ in range(nd)]
     c.aux = gen_aux(rng, rng.choice([0, 0, 1, 2, 3, 5, 8, 13, 20]))
+    c.offers, c.refused = list(c.aux), []
     return c
 
 # ------------------------------------------------------------------------------------------------
@@ -339,6 +360,17 @@ def legacy_variant(b, case, kind):
                     out[pos:pos + 80] = (b"COMMENT   legacy file: per-dimension order removed").ljust(80)
             pos += 80
         return bytes(out)
+    if kind == "namecard":
+        # a foreign file: the primary header carries EXTNAME and HDUNAME cards (as other FITS writers add them) with a name that
+        # matches none of the images looked for. The reader must skip the cards (reserved), not load them as auxiliary keys.
+        out = bytearray(b)
+        pos = 0
+        while bytes(out[pos:pos + 8]) != b"END     ":
+            pos += 80
+        if (pos // 80) % 36 > 33:
+            return None                                    # no room for two more cards in this header block
+        out[pos:pos + 240] = b"EXTNAME = 'SPLINE  '".ljust(80) + b"HDUNAME = 'PRIMARY '".ljust(80) + b"END".ljust(80)
+        return bytes(out)
     if kind == "noextents":
         if case.extents is None:
             return None
@@ -357,6 +389,26 @@ class Runner:
                       "independent_cfitsio_reads": 0, "layout_oracle_checks": 0, "legacy_files": 0, "identical_backend_outputs": 0, "eval_points_compared": 0}
     def p(self, name):
         return os.path.join(self.work, name)
+    def split_offers(self, cases):
+        """asks the model which of the offered keys write_key refuses (FitsModel.reserved, i.e. reservedFitsKeyword with the lists
+        translated from the current tree): c.aux = the entries the table holds afterwards, c.refused = the others"""
+        keys = sorted({k for _, c in cases for k, _ in c.offers})
+        if not keys:
+            return
+        open(self.p("k.list"), "w").write("".join("%d %s -\n" % (i, k.hex() or "-") for i, k in enumerate(keys)))
+        pk = run_stack([self.model, "reserved", self.p("k.list")])
+        res = {}
+        for l in pk.stdout.split("\n"):
+            w = l.split()
+            if len(w) >= 3 and w[-1] == "ok":
+                res[keys[int(w[0])]] = w[1] == "reserved=1"
+        if pk.returncode != 0 or len(res) != len(keys):
+            raise BuildError("model driver failed (reserved): %s" % pk.stderr[-500:])
+        for _, c in cases:
+            c.aux = [(k, v) for k, v in c.offers if not res[k]]
+            c.refused = [(k, v) for k, v in c.offers if res[k]]
+            self.stats["write_key_offers"] = self.stats.get("write_key_offers", 0) + len(c.offers)
+            self.stats["write_key_refusals_predicted"] = self.stats.get("write_key_refusals_predicted", 0) + len(c.refused)
     def execute(self, cases):
         """cases: list of (id, Case). Returns list of failures: (signature, text, payload)."""
         fails = []
@@ -364,10 +416,12 @@ class Runner:
             pl = {"case": case.to_json(), "describe": case.describe(), "check": sig}
             pl.update(extra or {})
             fails.append(("C06:" + sig, text, pl))
+        self.split_offers(cases)
         W = []
         for cid, c in cases:
-            open(self.p(cid + ".tbl"), "w").write("\n".join(c.lines(for_input=True)) + "\n")
-            W.append("%s %s %s" % (cid, self.p(cid + ".tbl"), self.p(cid)))
+            open(self.p(cid + ".tbl"), "w").write("\n".join(c.lines(for_input=True)) + "\n")           # the table (model writer)
+            open(self.p(cid + ".in.tbl"), "w").write("\n".join(c.lines(for_input="offers")) + "\n")     # every offer (write_key)
+            W.append("%s %s %s" % (cid, self.p(cid + ".in.tbl"), self.p(cid)))
         open(self.p("w.list"), "w").write("\n".join(W) + "\n")
         pw = sh([self.harness, "w", self.p("w.list")], timeout=3000)
         wstat = {}
@@ -395,7 +449,7 @@ class Runner:
                     self.stats["identical_backend_outputs"] += 1
                 else:
                     D.append("%s.%s %s %s" % (cid, be, self.p("%s.%s.fits" % (cid, be)), self.p("%s.%s.mdl" % (cid, be))))
-            for kind in ("order", "noextents"):
+            for kind in ("order", "noextents", "namecard"):
                 lb = legacy_variant(ref, c, kind)
                 if lb is not None:
                     open(self.p("%s.leg%s.fits" % (cid, kind)), "wb").write(lb)
@@ -452,6 +506,15 @@ class Runner:
                 self.stats["cases_skipped_after_reader_crash"] = self.stats.get("cases_skipped_after_reader_crash", 0) + 1
                 continue
             want = c.lines(read_back=True)
+            # (0) write_key refused exactly the offers the model refuses (and for the reason the model gives: reserved name)
+            got_ref = [x for x in dict(kv.split("=", 1) for kv in wstat[cid].split()[1:] if "=" in kv).get("refused", "-").split(",") if x != "-"]
+            want_ref = [(k.hex() or "-") + ":R" for k, _ in c.refused]
+            self.stats["comparisons"] += 1
+            if got_ref != want_ref:
+                names = lambda L: [bytes.fromhex(x.split(":")[0]).decode("latin1") + x[-2:] if x[0] != "-" else x for x in L]
+                fail(cid, c, "write_key:refusal:%s" % ("accepted-a-reserved-name" if len(got_ref) < len(want_ref) else "refused-a-storable-name"),
+                     "write_key refused %s, the model (reservedFitsKeyword as translated) refuses %s" % (names(got_ref), names(want_ref)))
+                continue
             # harness sanity: the object the library wrote is the case
             od = read_dump(self.p(cid + ".orig"))
             if od != c.lines():
@@ -523,10 +586,12 @@ class Runner:
                 if d:
                     fail(cid, c, "write_fits->%s:%s" % (be, d[0]), "front end %s on the library's own file: got %s, expected %s" % (be, d[1], d[2]))
             # legacy variants: model and library must agree, and decode as specified
-            for kind in ("order", "noextents"):
+            for kind in ("order", "noextents", "namecard"):
                 if (cid, kind) not in legacy:
                     continue
                 self.stats["legacy_files"] += 1
+                if kind == "namecard":
+                    self.stats["foreign_name_card_files"] = self.stats.get("foreign_name_card_files", 0) + 1
                 lw = Case(c.orders, c.knots, c.coefs, None if kind == "noextents" else c.extents, c.periods, c.aux).lines(read_back=True)
                 m = strip_periods(read_dump(self.p("%s.leg%s.mdl" % (cid, kind))))
                 for be in ("rfile", "rmem"):
@@ -575,20 +640,48 @@ def shipped_check(runner, out, cov):
     cov["shipped_pinned"] = len([f for f in files if f in pins])
     return seen
 
-def extname_probe(runner, out):
-    """an auxiliary key named EXTNAME (accepted by write_key) ends up in the primary header; fits_movnam_hdu starts its search
-    at the primary HDU, so EXTNAME = 'KNOTSn' makes the reader take the coefficient image for a knot vector."""
-    c = Case([1], [[dbits(float(i)) for i in range(5)]], [fbits(1.0), fbits(2.0), fbits(3.0)], [dbits(1.0), dbits(3.0)], None, [(b"EXTNAME", b"KNOTS0")])
-    open(runner.p("xn.tbl"), "w").write("\n".join(c.lines(for_input=True)) + "\n")
-    open(runner.p("xn.list"), "w").write("xn %s %s\n" % (runner.p("xn.tbl"), runner.p("xn")))
-    sh([runner.harness, "w", runner.p("xn.list")], timeout=600)
-    got = strip_periods(read_dump(runner.p("xn.rtfile")))
-    want = c.lines(read_back=True)
-    runner.stats["comparisons"] += 1
-    d = first_diff(got, want)
-    if d:
-        out.violation("C06:aux-key:EXTNAME-shadows-KNOTSn", "read(write(t)) differs from t when t carries the auxiliary key EXTNAME='KNOTS0': %s: got %s, expected %s" % d,
-                      {"case": c.to_json(), "describe": c.describe(), "check": "aux-key:EXTNAME-shadows-KNOTSn"})
+NAME_KEY_SIGNATURE = "C06:aux-key:EXTNAME-shadows-KNOTSn"
+def name_key_probe(runner, out):
+    """regression probe for the repaired finding C06:aux-key:EXTNAME-shadows-KNOTSn (D22): an auxiliary key named EXTNAME (or HDUNAME)
+    used to be accepted by write_key and written into the primary header; fits_movnam_hdu starts its search at the primary HDU, so
+    EXTNAME = 'KNOTSn' / 'EXTENTS' made the reader take the coefficient image for that vector. The minimised cases are kept in
+    corpus/C06/D22_*.json (marked "probe"). Here they are run WITHOUT consulting the model: the finding is reported again, under its
+    own signature, when write_key stores such a key and the table does not come back. (The same files also run through the general
+    comparison, where the model — the translated reserved list — must predict the refusal.)"""
+    d = os.path.join(VERIF, "corpus", "C06")
+    n = 0
+    for f in sorted(os.listdir(d)) if os.path.isdir(d) else []:
+        if not f.endswith(".json") or f == "shipped.json":
+            continue
+        j = json.load(open(os.path.join(d, f)))
+        if j.get("probe") != "name-key-shadow":
+            continue
+        n += 1
+        c = Case.from_json(j["case"])
+        tag = "nk_" + f[:-5]
+        open(runner.p(tag + ".tbl"), "w").write("\n".join(c.lines(for_input="offers")) + "\n")
+        open(runner.p(tag + ".list"), "w").write("%s %s %s\n" % (tag, runner.p(tag + ".tbl"), runner.p(tag)))
+        pw = sh([runner.harness, "w", runner.p(tag + ".list")], timeout=600)
+        st = ([l for l in pw.stdout.split("\n") if l.startswith(tag + " ")] or [""])[0]
+        refused = [x.split(":")[0] for x in dict(kv.split("=", 1) for kv in st.split()[1:] if "=" in kv).get("refused", "-").split(",") if x != "-"]
+        stored_names = [(k, v) for k, v in c.offers if k in NAME_KEYS and k.hex() not in refused]
+        runner.stats["comparisons"] += 1
+        if not stored_names:
+            runner.stats["name_key_probe_refused"] = runner.stats.get("name_key_probe_refused", 0) + 1
+            continue
+        c.aux = [(k, v) for k, v in c.offers if k.hex() not in refused]
+        want = c.lines(read_back=True)
+        bad = None
+        if not st.endswith(" ok"):
+            bad = ("table", st[len(tag):][:200], "the table read back")
+        for be in ("rtfile", "rtmem"):
+            bad = bad or first_diff(strip_periods(read_dump(runner.p("%s.%s" % (tag, be)))), want)
+        if bad:
+            k, v = stored_names[0]
+            out.violation(NAME_KEY_SIGNATURE, "REGRESSION of a repaired defect (%s): write_key stored the auxiliary key %s='%s' and read(write(t)) differs from t: %s: got %s, expected %s"
+                          % (f, k.decode(), v.decode(), bad[0], bad[1], bad[2]),
+                          {"case": c.to_json(), "describe": c.describe(), "check": "aux-key:EXTNAME-shadows-KNOTSn", "corpus": f})
+    runner.stats["name_key_probe_cases"] = n
 
 def load_corpus():
     d = os.path.join(VERIF, "corpus", "C06")
@@ -633,7 +726,7 @@ def run(info, out):
     if corpus:
         fails += r.execute(corpus)
     shipped_check(r, out, cov)
-    extname_probe(r, out)
+    name_key_probe(r, out)
     n = 300 if tier == "quick" else 3000
     cases = [("g%d" % i, gen_case(rng.fork("case%d" % i), tier)) for i in range(n)]
     if tier == "thorough":
@@ -666,13 +759,16 @@ def run(info, out):
         dist["periods"]["yes" if c.periods is not None else "no"] += 1
         b = "0" if not c.aux else ("1-5" if len(c.aux) <= 5 else "6-20")
         dist["naux"][b] = dist["naux"].get(b, 0) + 1
+        dist.setdefault("tables_with_refused_name_key_offers", 0)
+        dist["tables_with_refused_name_key_offers"] += 1 if c.refused else 0
         dist["special_coefficients"] += 1 if c.has_special() else 0
         for o in c.orders:
             dist["orders"][o] = dist["orders"].get(o, 0) + 1
     cov.update({"evaluations": r.stats["comparisons"], "distinct_nontrivial": len(distinct),
                 "rule": "random tables: 1..%d dims, pairwise different axis lengths, orders 0..5, coefficient bit patterns incl. NaN (quiet/signalling/payload), +-inf, -0, denormals, "
                         "knots uniform/random/wild/with special values, extents default/custom/absent, periods absent/present, 0..20 auxiliary keys (short and HIERARCH, quote-free values incl. empty, "
-                        "blank-padded, maximal length); non-trivial = >= 2 dims or special coefficient values or auxiliary keys; distinct by content hash" % (6 if tier == "quick" else 9),
+                        "blank-padded, maximal length), in 30 %% of the tables also 1..3 offers of EXTNAME / HDUNAME (values KNOTSn, EXTENTS, ...: refused, as the model predicts) or of near misses "
+                        "(EXTNAMES, HDUVER, ...: stored); every written file also re-read with EXTNAME / HDUNAME cards edited into its primary header; non-trivial = >= 2 dims or special coefficient values or auxiliary keys; distinct by content hash" % (6 if tier == "quick" else 9),
                 "samples": [c.describe() for _, c in cases[:3]],
                 "traces_validated_against_impl": r.stats["model_reads_of_library_bytes"] + r.stats["library_reads_of_model_bytes"],
                 "input_distribution": dist, "counts": r.stats, "generated_tables": len(cases), "corpus_cases": len(corpus),
